@@ -45,8 +45,16 @@
 #include "Mesh/MeshETurbo.hpp"
 #include "Mesh/MeshEStandard.hpp"
 #include "LithoRule/Rule.hpp"
+#include "LithoRule/Node.hpp"
+#include "Matrix/NF_Triplet.hpp"
+#include "Matrix/MatrixSparse.hpp"
+#include "Basic/Grid.hpp"
+#include "Basic/Indirection.hpp"
 #include "LithoRule/RuleShift.hpp"
 #include "Faults/Faults.hpp"
+#include "OutputFormat/GridZycor.hpp"
+#include "OutputFormat/GridIfpEn.hpp"
+#include "OutputFormat/GridBmp.hpp"
 #include "Fractures/FracEnviron.hpp"
 #include "Fractures/FracFamily.hpp"
 #include "Fractures/FracFault.hpp"
@@ -260,9 +268,42 @@ inline std::map<std::string, Handler>& registry();
 namespace nf {
 
 // One C08 case: build, dump, tokenise, reload, project, query, dump again.
+// file-name case: a Table is written with dumpToNF(name) and read with createFromNF(name) under the given settings
+inline Value runPathCase(const Value& cs, const std::string& tmp)
+{
+  const Value& o = cs.at("o");
+  Value rec = Value::object();
+  rec["id"] = cs.at("id");
+  rec["c"] = Value("Path");
+  std::string cont = tmp + "/cont/";
+  mkdir(cont.c_str(), 0755);
+  ASerializable::unsetContainerName();
+  ASerializable::unsetPrefixName();
+  if (o.at("container").boolean()) ASerializable::setContainerName(false, cont, false);
+  if (o.at("prefix").boolean()) ASerializable::setPrefixName("P-");
+  const std::string& kind = o.at("name").s();
+  std::string name = kind == "long" ? "tt.nf" : kind == "short" ? "ab" : tmp + "/abs.nf";
+  char cwd[4096];
+  if (!getcwd(cwd, sizeof cwd)) cwd[0] = 0;
+  if (chdir(tmp.c_str()) != 0) return rec;
+  Table* t = Table::create(1, 1);
+  t->setValue(0, 0, 7.);
+  rec["dump"] = Value(t->dumpToNF(name, false));
+  Table* r = Table::createFromNF(name, false);
+  rec["loaded"] = Value(r != nullptr && r->getNRows() == 1 && r->getValue(0, 0) == 7.);
+  delete r; delete t;
+  ASerializable::unsetContainerName();
+  ASerializable::unsetPrefixName();
+  // clean up whatever was written
+  for (const char* f : {"tt.nf", "ab", "abs.nf", "P-tt.nf", "P-ab", "cont/tt.nf", "cont/ab", "cont/P-tt.nf", "cont/P-ab"}) unlink((tmp + "/" + f).c_str());
+  if (chdir(cwd) != 0) {}
+  return rec;
+}
+
 inline Value runCase(const Value& cs, const std::string& tmp)
 {
   const std::string& cls = cs.at("c").s();
+  if (cls == "Path") return runPathCase(cs, tmp);
   auto it = registry().find(cls);
   if (it == registry().end()) throw std::runtime_error("no handler for class " + cls);
   Handler& h = it->second;
@@ -275,7 +316,7 @@ inline Value runCase(const Value& cs, const std::string& tmp)
   std::string f1, f2, r1, r2;     // names given to the API, real paths
   ASerializable::unsetContainerName();
   ASerializable::unsetPrefixName();
-  if (cfg == 0) { f1 = tmp + "/a.nf"; f2 = tmp + "/b.nf"; r1 = f1; r2 = f2; }
+  if (cfg == 0 || cfg == 3) { f1 = tmp + "/a.nf"; f2 = tmp + "/b.nf"; r1 = f1; r2 = f2; }
   else
   {
     ASerializable::setContainerName(false, tmp + "/", false);
@@ -295,9 +336,17 @@ inline Value runCase(const Value& cs, const std::string& tmp)
   bool okd = h.dump(obj, f1);
   std::string text1 = readAll(r1);
   rec["dump"] = Value(okd && !text1.empty());
-  rec["toks"] = tokenize(text1);
-  // a fresh session does not know the space of the object saved
-  defineDefaultSpace(ESpaceType::RN, 2);
+  if (!cs.getb("keep_text", false)) rec["toks"] = tokenize(text1);
+  else
+  {
+    // the file itself (hexadecimal: it may be binary)
+    std::string hex;
+    static const char* H = "0123456789abcdef";
+    for (unsigned char ch : text1) { hex.push_back(H[ch >> 4]); hex.push_back(H[ch & 15]); }
+    rec["hex"] = Value(hex);
+  }
+  // cfg 3: a fresh session, which does not know the space of the object saved (default space of dimension 2)
+  if (cfg == 3) defineDefaultSpace(ESpaceType::RN, 2);
   void* re = h.load(f1);
   rec["reload"] = Value(re != nullptr);
   if (re)
@@ -309,7 +358,7 @@ inline Value runCase(const Value& cs, const std::string& tmp)
     std::string text2 = readAll(r2);
     rec["dump2"] = Value(ok2);
     rec["same2"] = Value(ok2 && text2 == text1);
-    if (!(ok2 && text2 == text1)) rec["toks2"] = tokenize(text2);
+    if (!(ok2 && text2 == text1) && !cs.getb("keep_text", false)) rec["toks2"] = tokenize(text2);
     h.destroy(re);
   }
   h.destroy(obj);
